@@ -1,6 +1,7 @@
 # C01 — text output obeys the tree-drawing rule.
 from lib import *
 
+KERNEL_XCHECK = True
 RULE = ("well-formed documents = (random forest sampler + exhaustive enumeration of all ordered forests over names {a,b} "
         "up to the tier's node bound) x random spelling x branch 4-tuple x {iterator, no-iterator} route; "
         "non-trivial = forest with >= 2 nodes; distinct = by case line hash")
@@ -32,6 +33,7 @@ def run(ck, rng):
     impl, crashes = run_impl(exe, lines)
     model = run_model(lines)
     spec = run_model(specs)
+    ck.xcheck_cases = (lines, model)
     broken_corr = None
     for i, (items, sp, bf, noiter) in enumerate(cs):
         ck.case(lines[i], len(items) >= 2)
